@@ -42,7 +42,7 @@ PROPS = {
         "assumptions": [],
     },
     "C06": {
-        "units": [("replacer", r"replace_by|make_edit|get_replaced_range|deref|get_node"), ("source", r"accept_edit"), ("fixer", r"get_replaced_range"), "rewrite"],
+        "units": [("replacer", r"replace_by|make_edit|get_replaced_range|deref|get_node"), ("source", r"accept_edit"), ("fixer", r"get_replaced_range"), "rewrite", "cli_print"],
         "kani": [],
         "decided": ["NodeMatch::replace_by: the edit covers exactly the matched node's extent",
                     "NodeMatch::make_edit: (position, position+deleted_length) == the replacer's range, text == the replacer's text",
@@ -53,7 +53,7 @@ PROPS = {
         "assumptions": ["node ranges lie on char boundaries and inside the document (T-node)"],
     },
     "C08": {
-        "units": ["replacer", ("fixer", r"get_replaced_range|generate_replacement")],
+        "units": ["replacer", ("fixer", r"get_replaced_range|generate_replacement"), "cli_print"],
         "kani": [],
         "decided": ["trait Replacer: get_replaced_range == spec_range for every impl in core (str, Root, &T) and for config::Fixer; a reference to a replacer has the replacer's range and text (forwarding)",
                     "NodeMatch::make_edit builds THE edit from that range and text"],
@@ -91,6 +91,13 @@ PROPS = {
         "decided": ["MaySuppressed::suppressed_id: silenced iff a suppression governs the line and lists the rule id or lists nothing; reports that suppression's node id"],
         "not_decided": ["where comments sit (tree-sitter prev()/start_pos), comment detection by kind name, the unused-suppression bookkeeping inside CombinedScan::scan (HashMap/HashSet + dfs iterator), CLI records"],
         "assumptions": ["HashSet<String>::contains(&str) is set membership on the string content"],
+    },
+    "C18": {
+        "units": ["cli_print"],
+        "kani": [K("cli", "apply_rewrite_two_edits_len5", "apply_rewrite == old content with the accepted ranges substituted", bound="old text <= 5 bytes over {a,b,newline}, up to two ordered disjoint edits, replacements <= 2 bytes")],
+        "decided": ["Diff::generate: the CLI's edit (range, text) is NodeMatch::make_edit with the rule's Fixer", "apply_rewrite splices exactly the accepted ranges (bounded)"],
+        "not_decided": ["process_diffs_interactive bookkeeping (generic over Printer; closures), files on disk, repeated invocations, injected languages"],
+        "assumptions": ["String::from_utf8 on replacement bytes succeeds (UTF-8 sources and templates)"],
     },
     "C20": {
         "units": [],
